@@ -40,7 +40,8 @@ RULE = ("abstract recipe descriptions over a small shared name pool (so earlier/
 
 
 def suites(tier: str, seed: int) -> List[Suite]:
-    return [CC.compile_suite(ID, tier, seed)]
+    su = CC.compile_suite(ID, tier, seed)
+    return [su, CC.sym_suite(su.cases)]
 
 
 def replay(inp: Any) -> Case:
